@@ -160,6 +160,10 @@ func snapshot(v px.Value) string {
 	if err := safely(func() { w = walk(v) }); err != nil {
 		w = "panic"
 	}
+	if strings.Contains(w, "(deep)") {
+		// the value (now) contains itself: ToKey would recurse until the Go stack overflows, which no recover catches
+		return "cyclic | " + w[:200]
+	}
 	if err := safely(func() { k = sx.Str(string(px.ToKey(v))).Atom }); err != nil {
 		k = "panic"
 	}
@@ -680,6 +684,13 @@ func exec(c px.Context, op string, steps []sx.Sexp) core.Result {
 				failClass = who + "." + st.Tag()
 				fail = fmt.Sprintf("step %d %s changed value %d: was %s now %s", n, st.String(), i, p.snap, now)
 			}
+		}
+		if fail != "" {
+			// the property is already violated; operating on corrupted (possibly cyclic) values proves nothing more
+			for k := n + 1; k < len(steps); k++ {
+				h.pool = append(h.pool, marker("?"))
+			}
+			break
 		}
 	}
 	var b strings.Builder
